@@ -1,7 +1,7 @@
 (* C05 — property theorems only. Meta-theory of protected calls in the reference evaluator:
    for all callees, arguments, states, fuel and all resumption behaviours (effect trees). *)
-From GL Require Import Common.Bytes Lua.Syntax Lua.Num Lua.Values Lua.Names Lua.Eval
-  Lua.MonadFacts Lua.EvalStepFacts Lua.CatchFacts.
+From GL Require Import Common.Bytes Lua.Syntax Lua.Num Lua.Values Lua.Names Lua.Eval Lua.Run
+  Lua.MonadFacts Lua.EvalStepFacts Lua.CatchFacts Lua.DriveFacts Lua.EvalInvFacts Lua.DriveRunFacts.
 
 (* a handler that cannot fail makes the caught computation unable to fail *)
 Theorem catch_never_err : forall A (r : res A) (h : value -> state -> res A),
@@ -118,3 +118,30 @@ Print Assumptions error_string_level1.
 Theorem error_never_returns : forall n fr args s, never_ret (builtin_call n fr BError args s).
 Proof. exact error_never_returns_lemma. Qed.
 Print Assumptions error_never_returns.
+
+(* side effects: whatever a call did to the observable trace before failing (or returning) is an
+   extension of the trace; rows emitted before are never altered (induction over the evaluator);
+   together with pcall_delivers_error: the state after a failed pcall is the state at the error *)
+Theorem failed_call_extends_trace : forall n fr f args s v s',
+  call n fr f args s = Err v s' \/ (exists r, call n fr f args s = Ret r s') ->
+  exists ext, trace s' = trace s ++ ext.
+Proof. exact call_trace_extends_lemma. Qed.
+Print Assumptions failed_call_extends_trace.
+
+Theorem failed_call_store_grows : forall n fr f args s v s', call n fr f args s = Err v s' -> store_grows s s'.
+Proof. exact call_err_store_grows_lemma. Qed.
+Print Assumptions failed_call_store_grows.
+
+(* the full "prefix of the fault-free side effects" statement relates two runs (with and without
+   the injected fault); it is kept as a definition: only the single-run extension law above is
+   proved, the two-run law is checked by the harness's fault enumeration *)
+Definition fin_state (f : fin) : option state :=
+  match f with FinOk _ s | FinErr _ s => Some s | _ => None end.
+Definition with_fault (d : devs) (k : Z) : devs :=
+  mkDevs (dv_handler_err d) (dv_localfunc d) (dv_wrap_noprefix d) (dv_fault_string d) k.
+Definition fault_prefix_statement : Prop :=
+  forall n d k body s1 s2,
+    dv_emit_fault d = 0 -> 0 < k ->
+    fin_state (run_program n d body) = Some s1 ->
+    fin_state (run_program n (with_fault d k) body) = Some s2 ->
+    firstn (Z.to_nat (k - 1)) (trace s2) = firstn (Z.to_nat (k - 1)) (trace s1).
